@@ -5,6 +5,9 @@ From Coq Require Import Lia.
 From RM Require Import C08.Model C08.Proofs C03.Model C03.Proofs C03.ArgModel C03.ArgProofs C03.Compose.
 From RM Require Import C03.FetchModel C03.FetchProofs.
 From RM Require Import C03.ProcessModel C03.ProcessProofs.
+From RM Require Import C03.BudgetModel C03.BudgetProofs.
+From RM Require Import C03.RenderModel C03.RenderProofs C03.RenderCompose.
+From RM Require Gen.C03Render C03.RenderTie.
 From RM Require Gen.C03Sites C03.SitesTie.
 From RM Require C11.Model C11.Proofs2 C11.Proofs5.
 From RM Require C05.Model C05.Proofs.
@@ -569,3 +572,150 @@ Theorem c03_info_new_required_streams :
                   C03.SitesTie.first_failure ok' Gen.C03Sites.gen_stream_handling).
 Proof. exact (conj C03.SitesTie.info_new_from_source C03.SitesTie.optional_streams_cannot_fail). Qed.
 Print Assumptions c03_info_new_required_streams.
+
+(* ---- round 5, second pass: "within a time and memory budget tied to the input size", for the number of frames of the whole
+   ProcessState against ONE number, the length of the file (C03/BudgetModel.v: thread-list entries and memory descriptors are
+   references (rva, data_size) into the file, read by MinidumpMemory::read; the two list streams lie inside the file).
+   (1) A budget exists and is QUADRATIC: for every file-backed input, every CPU, any stack contents, contexts and symbols,
+       both profiles: frames <= |thread list| x (|file| + 2), and 48 x frames <= |file| x (|file| + 2). *)
+Theorem c03_frames_budget_in_file_size : forall p cpu a os module_at max_module_addr cfi_walk instr_valid fi,
+  C05.Proofs.arch_ok a -> file_ok a fi -> streams_in_file fi -> cfi_contract a cfi_walk ->
+  exists outs req,
+    process_threads p cpu a os module_at max_module_addr cfi_walk instr_valid (to_proc_in fi) = Ret (outs, req) /\
+    (total_frames outs <= length (fi_threads fi) * (file_size fi + 2))%nat /\
+    48 * Z.of_nat (total_frames outs) <= Z.of_nat (file_size fi) * (Z.of_nat (file_size fi) + 2).
+Proof. exact frames_quadratic_in_file. Qed.
+Print Assumptions c03_frames_budget_in_file_size.
+
+(* (2) F-C03h: NO budget linear in the input size holds.  For every factor c below 2^20 there is a dump shorter than 2^32
+       bytes, well-formed for every reader, whose processing (amd64, the walker as it is now, one module whose symbols
+       hold the one-byte CFI rule [share_cfi], which meets the CFI contract) yields more than c x |file| frames, in both
+       profiles: m thread-list entries cite the same m stack bytes, which the file holds once — m x (m + 1) frames out of
+       2048 + 49 m bytes.  (Replayed on the real code: corpus/C03, D cases with share=1; design/C03.md.) *)
+Theorem c03_linear_frame_budget_refuted : forall p (c : nat), Z.of_nat c < 1048576 ->
+  exists fi outs req,
+    file_ok C05.Model.amd64 fi /\ streams_in_file fi /\ cfi_contract C05.Model.amd64 share_cfi /\
+    Z.of_nat (file_size fi) < 4294967296 /\
+    process_threads p CpuAmd64 C05.Model.amd64 0 sh_modules 0 share_cfi sh_iv (to_proc_in fi) = Ret (outs, req) /\
+    Z.of_nat c * Z.of_nat (file_size fi) < Z.of_nat (total_frames outs).
+Proof. exact linear_frame_budget_refuted. Qed.
+Print Assumptions c03_linear_frame_budget_refuted.
+
+(* the family behind it, exactly: m threads x (m + 1) frames, 2048 + 49 m bytes *)
+Theorem c03_shared_stack_frames : forall p m, (8 <= m)%nat -> Z.of_nat m < 4294967296 ->
+  exists outs req,
+    process_threads p CpuAmd64 C05.Model.amd64 0 sh_modules 0 share_cfi sh_iv (to_proc_in (share_input m)) = Ret (outs, req) /\
+    total_frames outs = (m * (m + 1))%nat /\ file_size (share_input m) = (2048 + 49 * m)%nat.
+Proof. exact share_frames. Qed.
+Print Assumptions c03_shared_stack_frames.
+
+(* non-vacuity: the member m = 8 of the family is file-backed and well-formed, its eight threads are read from the same eight
+   bytes at rva 2432, and the model walks each for 9 frames: 72 frames out of 2440 bytes (computed) *)
+Example c03_nonvacuous_budget :
+  file_ok C05.Model.amd64 (share_input 8) /\ streams_in_file (share_input 8) /\
+  map th_stack (pi_threads (to_proc_in (share_input 8))) = repeat (Some (sh_region 8)) 8 /\
+  match process_threads Debug CpuAmd64 C05.Model.amd64 0 sh_modules 0 share_cfi sh_iv (to_proc_in (share_input 8)) with
+  | Ret (outs, None) => total_frames outs = 72%nat /\ length outs = 8%nat
+  | _ => False
+  end /\ file_size (share_input 8) = 2440%nat.
+Proof.
+  split; [exact (proj1 (share_file_ok 8))|]. split; [exact (proj1 (proj2 (share_file_ok 8)))|].
+  split; [vm_compute; reflexivity|]. split; [vm_compute; split; reflexivity|vm_compute; reflexivity].
+Qed.
+
+(* ---- round 5, second pass: "the resulting state can always be written as full text, brief text and JSON".
+   C03/RenderModel.v is the control flow of print / print_brief (print_internal), CallStack::print and print_json over a whole
+   ProcessState: which blocks are written in which order, the loops over threads, frames, inline frames and modules, and every
+   index / + / - site on the way.  For EVERY state whose frames satisfy [frame_ok] (the C08 / C11 lookup facts), whose
+   requesting_thread indexes the thread list and whose module tables passed the readers' size filter, in both profiles: all three
+   printers return (no index out of bounds, no overflow trap); the requesting thread's block is in the full and in the brief text;
+   one line per module, one JSON entry per module / thread / unloaded module. *)
+Theorem c03_renderers_total : forall p st, state_ok st ->
+  exists full brief json, render_all p st = Ret (full, brief, json) /\
+    (forall i, st_requesting st = Some i -> In (IThread i) full /\ In (IThread i) brief) /\
+    (length (st_modules st) + length (st_unloaded st) <= length full)%nat /\
+    (length (st_modules st) + length (st_threads st) + length (st_unloaded st) <= length json)%nat.
+Proof. exact renderers_total. Qed.
+Print Assumptions c03_renderers_total.
+
+(* the pipeline composed: thread loop (with C05's walker), then per frame the C08 module lookup and C11's fill_symbol on that
+   module's symbol file (ANY well-formed symbol file per module), then the three printers.  No hypothesis about the produced state
+   is left except that no call stack prints 2^64 lines. *)
+Theorem c03_pipeline_always_renders : forall p pr q cpu a os module_at max_module_addr cfi_walk instr_valid mods files pi,
+  C05.Proofs.arch_ok a -> input_ok a pi -> cfi_contract a cfi_walk ->
+  mods_ok mods -> mods_ok (pi_unloaded pi) -> (forall i, C11.Proofs2.wf_file (files i)) ->
+  exists outs st,
+    process_threads p cpu a os module_at max_module_addr cfi_walk instr_valid pi = Ret (outs, requesting_index pi) /\
+    state_of q mods files outs (requesting_index pi) (pi_unloaded pi) = Ret st /\
+    length (st_threads st) = length (pi_threads pi) /\
+    (lines_ok st ->
+     exists full brief json,
+       pipeline_render p pr q cpu a os module_at max_module_addr cfi_walk instr_valid mods files pi = Ret (full, brief, json) /\
+       (forall i, requesting_index pi = Some i -> In (IThread i) full /\ In (IThread i) brief)).
+Proof. exact pipeline_always_renders. Qed.
+Print Assumptions c03_pipeline_always_renders.
+
+(* the model expresses the defect class: a requesting_thread one past the thread list (round 5's mutation `Some(i + 1)`) makes
+   every printer panic on the index *)
+Theorem c03_render_requesting_out_of_bounds_refuted : forall p st,
+  st_requesting st = Some (length (st_threads st)) ->
+  print_internal p false st = Panic PANIC_INDEX /\ print_internal p true st = Panic PANIC_INDEX.
+Proof.
+  intros p st H. unfold print_internal. rewrite H. unfold idx.
+  assert (E : nth_error (st_threads st) (length (st_threads st)) = None) by (apply nth_error_None; lia).
+  rewrite E. split; reflexivity.
+Qed.
+Print Assumptions c03_render_requesting_out_of_bounds_refuted.
+
+(* the sites of the three printers as translate/c03_render.py extracts them from the source on every run (every index, + / -,
+   += / -= and the number of unwraps; an unknown expression or a panic macro makes the translator abort) are exactly the sites the
+   model visits *)
+Theorem c03_render_sites_match_source :
+  Gen.C03Render.gen_print_internal_sites = C03.RenderTie.model_print_internal_sites /\
+  Gen.C03Render.gen_call_stack_print_sites = C03.RenderTie.model_call_stack_print_sites /\
+  Gen.C03Render.gen_print_json_sites = C03.RenderTie.model_print_json_sites /\
+  Gen.C03Render.gen_printer_unwraps = C03.RenderTie.model_printer_unwraps.
+Proof. exact C03.RenderTie.render_sites_from_source. Qed.
+Print Assumptions c03_render_sites_match_source.
+
+(* non-vacuity: three call stacks — the requesting one (index 1) with a symbolicated frame carrying two inline frames, a frame with
+   only a module and a raw frame with unloaded-module offsets; a skipped dump-writer thread; an empty stack — two modules (one
+   ending at 2^64 - 1) and an unloaded module: the state is [state_ok] and the printers' output is computed *)
+Definition nv_rframe (i : Z) (m f s : option Z) (inl : nat) (u : list (list Z)) : rframe :=
+  {| rf_frame := {| f_instr := i; f_module := m; f_fname := match f with Some _ => true | None => false end; f_fbase := f;
+                    f_srcfl := match s with Some _ => true | None => false end; f_sbase := s |};
+     rf_inlines := inl; rf_unloaded := u |}.
+Definition nv_state : rstate :=
+  {| st_threads := [ {| rs_info := InfoDumpThreadSkipped; rs_frames := [] |};
+                     {| rs_info := InfoOk; rs_frames := [nv_rframe 4198400 (Some 4194304) (Some 4198000) (Some 4198396) 2 [];
+                                                         nv_rframe 4199987 (Some 4194304) None None 0 [];
+                                                         nv_rframe 9000 None None None 0 [[808; 4904]]] |};
+                     {| rs_info := InfoMissingContext; rs_frames := [] |} ];
+     st_requesting := Some 1%nat;
+     st_modules := [(4194304, 65536); (18446744073709486080, 65535)];
+     st_unloaded := [(8192, 4096)] |}.
+Example c03_nonvacuous_render :
+  state_ok nv_state /\
+  print_internal Debug true nv_state =
+    Ret [ISection 1; ISection 2; ISection 3; ISection 4; IThread 1; IInline 0; IInline 1; IFrame 2 (Some 4) [];
+         IFrame 3 (Some 5683) []; IFrame 4 None [[808; 4904]]] /\
+  print_internal Debug false nv_state =
+    Ret [ISection 1; ISection 2; ISection 3; ISection 4; IThread 1; IInline 0; IInline 1; IFrame 2 (Some 4) [];
+         IFrame 3 (Some 5683) []; IFrame 4 None [[808; 4904]]; IThread 2; INoFrames;
+         IModule 4194304 4259839; IModule 18446744073709486080 18446744073709551614; IUnloaded 8192 12287;
+         ISection 5; ISection 6; ISection 7] /\
+  print_json Release nv_state =
+    Ret [ISection 10; ISection 11; IJsonModule 4194304 4259840; IJsonModule 18446744073709486080 18446744073709551615; ISection 12;
+         IJsonThread []; IJsonThread [(0%nat, Some 4096, Some 400); (1%nat, Some 5683, None); (2%nat, None, None)]; IJsonThread [];
+         IJsonUnloaded 8192 12288; IJsonCrashingThread 1].
+Proof.
+  split; [|split; [vm_compute; reflexivity|split; vm_compute; reflexivity]].
+  unfold state_ok. cbn [st_threads st_requesting st_modules st_unloaded nv_state]. split; [|split; [|split; [|split]]].
+  - intros s f [Hs|[Hs|[Hs|[]]]]; subst s; cbn [rs_frames In]; intros Hf; repeat (destruct Hf as [Hf|Hf]); try contradiction;
+      subst f; unfold frame_ok, below, nv_rframe; cbn [rf_frame f_instr f_module f_fbase f_sbase];
+      (split; [unfold two64; lia|]); (split; [|split]); intros b Hb; inversion Hb; subst; lia.
+  - intros s [Hs|[Hs|[Hs|[]]]]; subst s; vm_compute; reflexivity.
+  - intros i Hi. inversion Hi; subst. cbn. lia.
+  - intros m [Hm|[Hm|[]]]; subst m; cbn [fst snd]; (split; [lia|split; [lia|vm_compute; reflexivity]]).
+  - intros m [Hm|[]]; subst m; cbn [fst snd]; (split; [lia|split; [lia|vm_compute; reflexivity]]).
+Qed.
